@@ -135,7 +135,7 @@ Proof.
   { rewrite In_g2_reach. split; intros [H1 H2]; (split; [exact H1|]); intros X E [x0 [Hx0 Hr]];
       apply (H2 X E); exists x0; (split; [exact Hx0|]).
     - apply (reach_g1_iff nodes root x0 x (HX X E x0 Hx0)). exact Hr.
-    - apply (reach_incl preds _ nodes x0 x); [intros y; apply g1_incl|exact Hr]. }
+    - apply (reach_incl preds (g1_of preds nodes root) nodes x0 x); [intros y; apply g1_incl|exact Hr]. }
   unfold g3_of. destruct target as [T|].
   - rewrite ancestors_refl_spec. split.
     + intros [t [Ht Hr]].
@@ -143,7 +143,7 @@ Proof.
       apply G2 in Hx2. destruct Hx2 as [Hx1 Hx2]. apply G1 in Hx1. destruct Hx1 as [Hn HR].
       split; [exact Hn|]. split; [exact HR|]. split; [exact Hx2|].
       intros T' E. inversion E; subst T'. exists t. split; [exact Ht|].
-      apply (reach_incl preds _ nodes x t); [intros y; apply g2_incl|exact Hr].
+      apply (reach_incl preds (g2_of preds nodes exclude root) nodes x t); [intros y; apply g2_incl|exact Hr].
     + intros [Hn [HR [HE HT]]]. destruct (HT T eq_refl) as [t [Ht Hr]]. exists t. split; [exact Ht|].
       apply reach_g2; [apply G1; auto|apply (Htg T eq_refl t Ht)|exact Hr].
   - rewrite G2, G1. split.
@@ -170,7 +170,7 @@ Proof.
   { unfold g1_of. destruct root as [R|]; [|exact Hn]. apply descendants_refl_spec. apply (HR R eq_refl). }
   assert (G2 : In x (g2_of preds nodes exclude root)).
   { apply In_g2_reach. split; [exact G1|]. intros X E [x0 [Hx0 Hr]]. apply (HE X E). exists x0.
-    split; [exact Hx0|]. apply (reach_incl preds _ nodes x0 x); [intros y; apply g1_incl|exact Hr]. }
+    split; [exact Hx0|]. apply (reach_incl preds (g1_of preds nodes root) nodes x0 x); [intros y; apply g1_incl|exact Hr]. }
   unfold g3_of. destruct target as [T|]; [|exact G2].
   apply ancestors_refl_spec. destruct (HT T eq_refl) as [t [Ht Hr]]. exists t. split; [exact Ht|].
   apply reach_g2; [exact G1|apply (Htg T eq_refl t Ht)|exact Hr].
@@ -214,8 +214,251 @@ Qed.
 
 End S.
 
+(* the hypothesis of C12 on the excluded nodes is necessary: nodes 0,1 -> 2, root [0], exclude [1].
+   Node 1 is outside the part selected by the root, the model (like the code, which computes the
+   successors of X inside the root-pruned graph) excludes nothing, although 2 depends on 1. *)
+Definition cex_preds (n : nat) : list nat := match n with 2 => [0; 1] | _ => [] end.
+Example exclude_outside_root_is_ignored :
+  make_subgraph cex_preds [0; 1; 2] None (Some [1]) (Some [0]) = SelOk [0; 2]
+  /\ reach cex_preds [0; 1; 2] 1 2.
+Proof.
+  split; [vm_compute; reflexivity|].
+  apply (reach_step cex_preds [0; 1; 2] 1 1 2); simpl; auto. apply reach_refl. simpl; auto.
+Qed.
+
+(* ================================================================== PART 2 (C13) *)
+Section D.
+Variable val : Type.
+Variable vnone : val.
+Variable truthy : val -> bool.
+Variable index : val -> nat -> option val.
+Variable tbl : nat -> nodeT val.
+Variable res0 : results val.
+
+Notation lookup' := (lookup val).
+Notation has' := (has val).
+Notation deps' := (deps_of val tbl).
+Notation flag' := (flag val vnone truthy index tbl).
+Notation exec' := (exec_node val vnone index tbl).
+Notation Sound' c := (Sound val vnone truthy index tbl c res0).
+Notation EvInv' c := (EvInv val vnone truthy index tbl c res0).
+Notation EvComplete' c := (EvComplete val tbl c).
+Notation computable' c := (computable val tbl c).
+Notation agree' := (agree val tbl).
+Notation R c := (diff (c_nodes c) (c_pre c)).
+Notation den_eval' c := (den_eval val vnone truthy index tbl c res0).
+Notation den' c := (den val vnone truthy index tbl c res0).
+
+(* ---- comparing evaluations of the same node table under two configurations *)
+Lemma computable_transfer ca cb A B n :
+  agree' A B n -> (forall p, In p (deps' n) -> In p (R cb) -> In p (R ca)) ->
+  computable' ca A n = true -> computable' cb B n = true.
+Proof.
+  intros Hag Hsub HA. apply computable_spec. intros p Hp HR. unfold has. rewrite <- (Hag p Hp).
+  exact (proj1 (computable_spec val tbl ca A n) HA p Hp (Hsub p Hp HR)).
+Qed.
+
+Lemma value_transfer ca cb A b n v :
+  Sound' ca A -> EvInv' cb b -> EvComplete' cb b ->
+  agree' A (fst b) n -> In n (R cb) -> has' res0 n = false ->
+  (forall p, In p (deps' n) -> In p (R cb) -> In p (R ca)) ->
+  lookup' A n = Some v -> lookup' (fst b) n = Some v.
+Proof.
+  intros SA I Cm Hag HR E0 Hsub E.
+  destruct (sd_val val vnone truthy index tbl ca res0 A SA n v E E0) as [Hc Hv].
+  assert (HcB : computable' cb (fst b) n = true)
+    by (apply (computable_transfer ca cb A (fst b) n Hag Hsub Hc)).
+  rewrite (flag_agree val vnone truthy index tbl A (fst b) n Hag),
+          (exec_agree val vnone index tbl A (fst b) n Hag) in Hv.
+  pose proof (Cm n HR HcB) as Hd. unfold decided in Hd. apply orb_true_iff in Hd.
+  destruct Hd as [Hd|Hd].
+  - apply has_true in Hd. destruct Hd as [w Hw].
+    destruct (sd_val val vnone truthy index tbl cb res0 (fst b)
+                (ev_sound val vnone truthy index tbl cb res0 b I) n w Hw E0) as [_ HwD].
+    rewrite Hw. f_equal.
+    destruct Hv as [[H1 ->]|[H1 H2]]; destruct HwD as [[H3 ->]|[H3 H4]]; congruence.
+  - exfalso. apply mem_In in Hd.
+    destruct (ev_fail val vnone truthy index tbl cb res0 b I n Hd) as [_ Hf].
+    destruct Hv as [[H1 _]|[H1 H2]]; destruct Hf as [H3|[H3 H4]]; congruence.
+Qed.
+
+Lemma fail_transfer ca cb a b n :
+  EvInv' ca a -> EvInv' cb b -> EvComplete' cb b ->
+  agree' (fst a) (fst b) n -> lookup' (fst a) n = lookup' (fst b) n -> In n (R cb) ->
+  (forall p, In p (deps' n) -> In p (R cb) -> In p (R ca)) ->
+  In n (snd a) -> In n (snd b).
+Proof.
+  intros Ia Ib Cm Hag El HR Hsub Hn.
+  destruct (ev_fail val vnone truthy index tbl ca res0 a Ia n Hn) as [Hc _].
+  pose proof (ev_fail_nokey val vnone truthy index tbl ca res0 a Ia n Hn) as Hk.
+  assert (HcB : computable' cb (fst b) n = true)
+    by (apply (computable_transfer ca cb (fst a) (fst b) n Hag Hsub Hc)).
+  pose proof (Cm n HR HcB) as Hd. unfold decided in Hd. apply orb_true_iff in Hd.
+  destruct Hd as [Hd|Hd]; [|apply mem_In; exact Hd].
+  exfalso. unfold has in Hk, Hd. rewrite El in Hk. rewrite Hd in Hk. discriminate.
+Qed.
+
+(* ---- the two settings: c1 runs without the debug nodes, c2 with them *)
+Section Two.
+Variables c1 c2 : cfg.
+Variable debug : nat -> bool.
+Hypothesis W2 : wf c2.
+Hypothesis Cs1 : consistent val tbl c1 res0.
+Hypothesis Cs2 : consistent val tbl c2 res0.
+Hypothesis Hincl : incl (c_nodes c1) (c_nodes c2).
+Hypothesis Hextra : forall n, In n (c_nodes c2) -> ~ In n (c_nodes c1) -> debug n = true.
+(* build rule: no non-debug node depends on a debug node *)
+Hypothesis Hbuild : forall n, In n (c_nodes c2) -> debug n = false ->
+  forall p, In p (deps' n) -> In p (c_nodes c2) -> debug p = false.
+
+Lemma R1_R2 n : In n (R c1) -> In n (R c2).
+Proof.
+  intros H. apply In_diff in H. destruct H as [Hn Hp]. apply In_diff.
+  split; [apply Hincl; exact Hn|]. intros Hp2. apply Hp.
+  apply (cs_pre val tbl c1 res0 Cs1 n Hn).
+  apply (cs_pre val tbl c2 res0 Cs2 n (Hincl n Hn)). exact Hp2.
+Qed.
+
+Lemma R2_R1 n : In n (R c2) -> debug n = false -> In n (R c1).
+Proof.
+  intros H Hd. apply In_diff in H. destruct H as [Hn Hp].
+  assert (Hn1 : In n (c_nodes c1)).
+  { destruct (in_dec Nat.eq_dec n (c_nodes c1)) as [Y|N]; [exact Y|].
+    rewrite (Hextra n Hn N) in Hd. discriminate. }
+  apply In_diff. split; [exact Hn1|]. intros Hp1. apply Hp.
+  apply (cs_pre val tbl c2 res0 Cs2 n Hn).
+  apply (cs_pre val tbl c1 res0 Cs1 n Hn1). exact Hp1.
+Qed.
+
+Lemma deps_R2_R1 n : In n (R c2) -> debug n = false ->
+  forall p, In p (deps' n) -> In p (R c2) -> In p (R c1).
+Proof.
+  intros HR Hd p Hp HpR. apply (R2_R1 p HpR).
+  apply In_diff in HR. apply In_diff in HpR. apply (Hbuild n); tauto.
+Qed.
+
+Let D1 := fst (den_eval' c1).
+Let D2 := fst (den_eval' c2).
+
+Lemma outside_eq p : ~ In p (R c2) -> lookup' D1 p = lookup' D2 p.
+Proof.
+  intros Hp2. assert (Hp1 : ~ In p (R c1)) by (intros X; apply Hp2; apply R1_R2; exact X).
+  unfold D1, D2.
+  rewrite (Sound_outside val vnone truthy index tbl c1 res0 _ p
+             (ev_sound _ _ _ _ _ _ _ _ (EvInv_den val vnone truthy index tbl c1 res0)) Hp1).
+  rewrite (Sound_outside val vnone truthy index tbl c2 res0 _ p
+             (ev_sound _ _ _ _ _ _ _ _ (EvInv_den val vnone truthy index tbl c2 res0)) Hp2).
+  reflexivity.
+Qed.
+
+Lemma nondebug_lookup_eq n : debug n = false -> lookup' D1 n = lookup' D2 n.
+Proof.
+  destruct (wf_acyclic c2 W2) as [rank Hrank].
+  assert (H : forall k n, rank n < k -> debug n = false -> lookup' D1 n = lookup' D2 n).
+  { induction k as [|k IH]; intros m Hk Hd; [lia|].
+    destruct (in_dec Nat.eq_dec m (R c2)) as [HR2|HR2]; [|apply outside_eq; exact HR2].
+    pose proof (R2_R1 m HR2 Hd) as HR1.
+    pose proof (R0_not_pre val tbl c2 res0 m Cs2 HR2) as E0.
+    assert (Hag : agree' D1 D2 m).
+    { intros p Hp. destruct (in_dec Nat.eq_dec p (R c2)) as [Hp2|Hp2]; [|apply outside_eq; exact Hp2].
+      pose proof HR2 as HR2'. pose proof Hp2 as Hp2'.
+      apply In_diff in HR2'. apply In_diff in Hp2'. apply IH.
+      - assert (rank p < rank m); [|lia]. apply Hrank; try tauto.
+        apply (cs_deps val tbl c2 res0 Cs2 m); tauto.
+      - apply (Hbuild m); tauto. }
+    destruct (lookup' D1 m) as [v|] eqn:E1.
+    - symmetry.
+      apply (value_transfer c1 c2 D1 (den_eval' c2) m v); auto.
+      + apply (ev_sound _ _ _ _ _ _ _ _ (EvInv_den val vnone truthy index tbl c1 res0)).
+      + apply EvInv_den.
+      + apply EvComplete_den.
+      + apply (deps_R2_R1 m HR2 Hd).
+    - destruct (lookup' D2 m) as [w|] eqn:E2; [|reflexivity].
+      assert (X : lookup' (fst (den_eval' c1)) m = Some w).
+      { apply (value_transfer c2 c1 D2 (den_eval' c1) m w); auto.
+        + apply (ev_sound _ _ _ _ _ _ _ _ (EvInv_den val vnone truthy index tbl c2 res0)).
+        + apply EvInv_den.
+        + apply EvComplete_den.
+        + apply agree_sym. exact Hag.
+        + intros p _. apply R1_R2. }
+      fold D1 in X. congruence. }
+  intros Hd. apply (H (S (rank n))); [lia|exact Hd].
+Qed.
+
+Lemma nondebug_agree n : In n (R c2) -> debug n = false -> agree' D1 D2 n.
+Proof.
+  intros HR Hd p Hp. destruct (in_dec Nat.eq_dec p (R c2)) as [Hp2|Hp2]; [|apply outside_eq; exact Hp2].
+  apply nondebug_lookup_eq. apply In_diff in HR. apply In_diff in Hp2. apply (Hbuild n); tauto.
+Qed.
+
+(* C13: the value of every non-debug node is the same in both settings (None = no value:
+   the node or one of its ancestors raised) *)
+Theorem debug_does_not_change_values_gen n :
+  debug n = false -> den' c1 n = den' c2 n.
+Proof. intros Hd. unfold den. apply nondebug_lookup_eq. exact Hd. Qed.
+
+Theorem debug_does_not_change_values n :
+  debug n = false -> In n (c_nodes c1) -> den' c1 n = den' c2 n.
+Proof. intros Hd _. apply debug_does_not_change_values_gen. exact Hd. Qed.
+
+(* and the same non-debug nodes raise *)
+Theorem debug_does_not_change_failures n :
+  debug n = false -> (In n (snd (den_eval' c1)) <-> In n (snd (den_eval' c2))).
+Proof.
+  intros Hd. split; intros Hn.
+  - assert (HR1 : In n (R c1)) by (apply (ev_fail_R0 _ _ _ _ _ _ _ _ (EvInv_den val vnone truthy index tbl c1 res0) n Hn)).
+    pose proof (R1_R2 n HR1) as HR2.
+    apply (fail_transfer c1 c2 (den_eval' c1) (den_eval' c2) n); auto.
+    + apply EvInv_den.
+    + apply EvInv_den.
+    + apply EvComplete_den.
+    + apply (nondebug_agree n HR2 Hd).
+    + apply (nondebug_lookup_eq n Hd).
+    + apply (deps_R2_R1 n HR2 Hd).
+  - assert (HR2 : In n (R c2)) by (apply (ev_fail_R0 _ _ _ _ _ _ _ _ (EvInv_den val vnone truthy index tbl c2 res0) n Hn)).
+    pose proof (R2_R1 n HR2 Hd) as HR1.
+    apply (fail_transfer c2 c1 (den_eval' c2) (den_eval' c1) n); auto.
+    + apply EvInv_den.
+    + apply EvInv_den.
+    + apply EvComplete_den.
+    + apply agree_sym. apply (nondebug_agree n HR2 Hd).
+    + symmetry. apply (nondebug_lookup_eq n Hd).
+    + intros p _. apply R1_R2.
+Qed.
+End Two.
+
+(* instantiated with the executor graphs of Select.v: same selection g, debug off / debug on *)
+Theorem executor_debug_values preds (dbg : nat -> bool) nodes g (c1 c2 : cfg) :
+  (forall x, In x (c_nodes c1) <-> In x (extend_with_debug preds dbg nodes g false)) ->
+  (forall x, In x (c_nodes c2) <-> In x (extend_with_debug preds dbg nodes g true)) ->
+  wf c2 -> consistent val tbl c1 res0 -> consistent val tbl c2 res0 ->
+  (forall n, In n (c_nodes c2) -> dbg n = false ->
+     forall p, In p (deps' n) -> In p (c_nodes c2) -> dbg p = false) ->
+  forall n, dbg n = false ->
+    den' c1 n = den' c2 n /\ (In n (snd (den_eval' c1)) <-> In n (snd (den_eval' c2))).
+Proof.
+  intros H1 H2 W2 Cs1 Cs2 Hb n Hd.
+  assert (Hincl : incl (c_nodes c1) (c_nodes c2)).
+  { intros x Hx. apply H1 in Hx. apply In_extend_off in Hx. destruct Hx as [Hg [_ Hn]].
+    apply H2. apply (debug_on_superset preds dbg dbg nodes g x Hg Hn). }
+  assert (Hextra : forall x, In x (c_nodes c2) -> ~ In x (c_nodes c1) -> dbg x = true).
+  { intros x Hx Hnx. apply H2 in Hx.
+    pose proof (debug_on_incl_nodes preds dbg dbg nodes g true x Hx) as Hn.
+    destruct (debug_on_only_adds_debug preds dbg dbg nodes g x Hx) as [Hg|[Hdx _]]; [|exact Hdx].
+    destruct (dbg x) eqn:E; [reflexivity|]. exfalso. apply Hnx. apply H1. apply In_extend_off. auto. }
+  split.
+  - apply (debug_does_not_change_values_gen c1 c2 dbg W2 Cs1 Cs2 Hincl Hextra Hb n Hd).
+  - apply (debug_does_not_change_failures c1 c2 dbg W2 Cs1 Cs2 Hincl Hextra Hb n Hd).
+Qed.
+End D.
+
 Print Assumptions selection_spec_full.
 Print Assumptions selection_spec_full_complete.
 Print Assumptions selection_spec_root.
 Print Assumptions selection_spec_exclude.
 Print Assumptions selection_spec_target.
+Print Assumptions exclude_outside_root_is_ignored.
+Print Assumptions debug_does_not_change_values_gen.
+Print Assumptions debug_does_not_change_values.
+Print Assumptions debug_does_not_change_failures.
+Print Assumptions executor_debug_values.
